@@ -443,6 +443,692 @@ fn gen_status(root: &str) -> R<String> {
     Ok(o)
 }
 
+// ---- tonic/src/codec/compression.rs: encodings, their names, the two header parsers ---------
+fn gen_compression(root: &str) -> R<String> {
+    let f = parse(root, "tonic/src/codec/compression.rs")?;
+    let mut o = String::new();
+    writeln!(o, "(* GENERATED by rs2v from tonic/src/codec/compression.rs - do not edit *)").unwrap();
+    writeln!(o, "From Coq Require Import List NArith.\nImport ListNotations.\nOpen Scope N_scope.\n").unwrap();
+
+    // enum CompressionEncoding (built with all three cargo features on)
+    let mut variants: Vec<String> = vec![];
+    for it in &f.items {
+        if let syn::Item::Enum(e) = it {
+            if e.ident == "CompressionEncoding" {
+                for v in &e.variants {
+                    if !matches!(v.fields, syn::Fields::Unit) || v.discriminant.is_some() {
+                        return Err(format!("CompressionEncoding::{}: not a plain unit variant", v.ident));
+                    }
+                    variants.push(v.ident.to_string());
+                }
+            }
+        }
+    }
+    if variants.is_empty() {
+        return Err("enum CompressionEncoding not found".into());
+    }
+    let variant = |path: &str| -> R<String> {
+        let p = path.strip_prefix("CompressionEncoding::").ok_or(format!("not a CompressionEncoding path: {}", path))?;
+        if variants.iter().any(|v| v == p) { Ok(p.to_string()) } else { Err(format!("unknown CompressionEncoding `{}`", path)) }
+    };
+    writeln!(o, "(* enum CompressionEncoding *)\nInductive encoding : Set := {}.", variants.join(" | ")).unwrap();
+
+    // const ENCODINGS
+    let e = find_const(&f, "ENCODINGS")?;
+    let arr = match &e {
+        syn::Expr::Reference(r) => match &*r.expr { syn::Expr::Array(a) => a.clone(), _ => return Err("ENCODINGS: not &[..]".into()) },
+        _ => return Err("ENCODINGS: not &[..]".into()),
+    };
+    let all = arr
+        .elems
+        .iter()
+        .map(|x| match x {
+            // elements carry #[cfg(feature = ..)] attributes: take the path only
+            syn::Expr::Path(p) => variant(&ts(&p.path)),
+            _ => Err(format!("ENCODINGS element {}", ts(x))),
+        })
+        .collect::<R<Vec<_>>>()?;
+    writeln!(o, "(* CompressionEncoding::ENCODINGS *)\nDefinition encodings_all : list encoding := [{}].", all.join("; ")).unwrap();
+
+    // header names
+    for (c, n) in [("ENCODING_HEADER", "hdr_grpc_encoding"), ("ACCEPT_ENCODING_HEADER", "hdr_grpc_accept_encoding")] {
+        let e = find_const(&f, c)?;
+        match &e {
+            syn::Expr::Lit(syn::ExprLit { lit: syn::Lit::Str(s), .. }) => {
+                writeln!(o, "Definition {} : list N := {}.", n, coq_bytes(s.value().as_bytes())).unwrap()
+            }
+            _ => return Err(format!("{}: not a string literal", c)),
+        }
+    }
+
+    // as_str
+    let b = find_fn(&f, "as_str")?;
+    let m = the_match(&b, "self")?;
+    let mut tbl = vec![];
+    for (alts, g, body) in arms(&m) {
+        if g.is_some() { return Err("as_str: guard".into()); }
+        let s = match &body {
+            syn::Expr::Lit(syn::ExprLit { lit: syn::Lit::Str(s), .. }) => s.value(),
+            _ => return Err(format!("as_str: body {}", ts(&body))),
+        };
+        for a in alts { tbl.push((variant(&a)?, s.clone().into_bytes())); }
+    }
+    if tbl.len() != variants.len() { return Err("as_str: does not cover every variant exactly once".into()); }
+    writeln!(o, "\n(* CompressionEncoding::as_str *)\nDefinition as_str_table : list (encoding * list N) :=\n  [{}].",
+        tbl.iter().map(|(k, v)| format!("({}, {})", k, coq_bytes(v))).collect::<Vec<_>>().join("; ")).unwrap();
+
+    // from_accept_encoding_header: the token table inside the filter_map closure
+    let b = find_fn(&f, "from_accept_encoding_header")?;
+    let m = the_match(&b, "value")?;
+    if ts(&m.expr) != "value" { return Err(format!("from_accept_encoding_header: scrutinee {}", ts(&m.expr))); }
+    let mut tbl = vec![];
+    let mut has_default = false;
+    for (alts, g, body) in arms(&m) {
+        if g.is_some() { return Err("from_accept_encoding_header: guard".into()); }
+        let bs = ts(&body);
+        for a in alts {
+            if a == "_" {
+                if bs != "None" { return Err(format!("from_accept_encoding_header: default arm {}", bs)); }
+                has_default = true;
+                continue;
+            }
+            let lit: syn::LitStr = syn::parse_str(&a).map_err(|_| format!("from_accept_encoding_header: pattern {}", a))?;
+            if !(bs.starts_with("Some(") && bs.ends_with(')')) { return Err(format!("from_accept_encoding_header: body {}", bs)); }
+            tbl.push((lit.value().into_bytes(), variant(&bs[5..bs.len() - 1])?));
+        }
+    }
+    if !has_default { return Err("from_accept_encoding_header: no `_ => None` arm".into()); }
+    writeln!(o, "\n(* from_accept_encoding_header: trimmed token -> encoding, anything else is skipped *)\nDefinition accept_token_table : list (list N * encoding) :=\n  [{}].",
+        tbl.iter().map(|(k, v)| format!("({}, {})", coq_bytes(k), v)).collect::<Vec<_>>().join("; ")).unwrap();
+
+    // from_encoding_header: exact byte strings, each guarded by is_enabled of the same encoding
+    let b = find_fn(&f, "from_encoding_header")?;
+    let m = the_match(&b, "header_value.as_bytes()")?;
+    let mut tbl = vec![];
+    let mut identity = None;
+    let mut has_other = false;
+    for (alts, g, body) in arms(&m) {
+        let bs = ts(&body);
+        if alts.len() != 1 { return Err("from_encoding_header: or-pattern".into()); }
+        let a = &alts[0];
+        if let Ok(lit) = syn::parse_str::<syn::LitByteStr>(a) {
+            if has_other { return Err("from_encoding_header: literal arm after the catch-all".into()); }
+            match g {
+                Some(g) => {
+                    if identity.is_some() { return Err("from_encoding_header: guarded arm after the identity arm".into()); }
+                    if !(bs.starts_with("{Ok(Some(") && bs.ends_with("))}")) { return Err(format!("from_encoding_header: body {}", bs)); }
+                    let v = variant(&bs[9..bs.len() - 3])?;
+                    if g != format!("enabled_encodings.is_enabled(CompressionEncoding::{})", v) {
+                        return Err(format!("from_encoding_header: guard `{}` of the arm yielding {}", g, v));
+                    }
+                    tbl.push((lit.value(), v));
+                }
+                None => {
+                    if bs != "Ok(None)" { return Err(format!("from_encoding_header: unguarded literal arm {}", bs)); }
+                    if identity.is_some() { return Err("from_encoding_header: two unguarded literal arms".into()); }
+                    identity = Some(lit.value());
+                }
+            }
+        } else {
+            // catch-all binding: must build Status::unimplemented and return Err(status)
+            if g.is_some() || !bs.contains("Status::unimplemented(") || !bs.ends_with("Err(status)}") {
+                return Err(format!("from_encoding_header: unexpected catch-all arm `{}`", a));
+            }
+            if !bs.contains(".insert(ACCEPT_ENCODING_HEADER,header_value)") {
+                return Err("from_encoding_header: catch-all arm does not insert ACCEPT_ENCODING_HEADER".into());
+            }
+            let fb = bs.find("unwrap_or_else(||MetadataValue::from_static(").ok_or("from_encoding_header: fallback value not found")?;
+            writeln!(o, "\n(* from_encoding_header: value of grpc-accept-encoding on the error status when nothing is enabled *)\nDefinition accept_value_fallback : list N := {}.",
+                coq_bytes(str_lit(&bs[fb..])?.as_bytes())).unwrap();
+            has_other = true;
+        }
+    }
+    if !has_other { return Err("from_encoding_header: no catch-all arm".into()); }
+    writeln!(o, "\n(* from_encoding_header: exact value -> encoding, taken only if that encoding is enabled *)\nDefinition encoding_header_table : list (list N * encoding) :=\n  [{}].\n(* the value meaning \"not compressed\" *)\nDefinition encoding_header_identity : list N := {}.",
+        tbl.iter().map(|(k, v)| format!("({}, {})", coq_bytes(k), v)).collect::<Vec<_>>().join("; "),
+        coq_bytes(&identity.ok_or("from_encoding_header: no identity arm")?)).unwrap();
+
+    // into_accept_encoding_header_value: separator byte and closing token
+    let b = find_fn(&f, "into_accept_encoding_header_value")?;
+    let s = ts(&b);
+    let i = s.find("value.put_u8(").ok_or("into_accept_encoding_header_value: no put_u8")?;
+    let j = s[i..].find(')').ok_or("into_accept_encoding_header_value: put_u8")?;
+    let sep = byte_lit(&s[i + "value.put_u8(".len()..i + j])?;
+    if !s.contains("value.put_slice(encoding.as_str().as_bytes());value.put_u8(") {
+        return Err("into_accept_encoding_header_value: loop body is not name then separator".into());
+    }
+    let i = s.rfind("value.put_slice(b\"").ok_or("into_accept_encoding_header_value: no closing put_slice")?;
+    let tail = str_lit(&s[i..])?;
+    writeln!(o, "\n(* into_accept_encoding_header_value: name SEP name SEP ... TAIL, None when nothing is enabled *)\nDefinition accept_value_sep : N := {}.\nDefinition accept_value_tail : list N := {}.",
+        sep, coq_bytes(tail.as_bytes())).unwrap();
+    Ok(o)
+}
+
+// ---- C09: grpc-timeout tables --------------------------------------------------------------
+/// `Gen/TimeoutTables.v`: the unit table and digit cap of `try_parse_grpc_timeout`
+/// (tonic/src/transport/service/grpc_timeout.rs) and the cascade of
+/// `duration_to_grpc_timeout` (tonic/src/request.rs).  The statements around the tables are
+/// compared literally, so that a change of the parser's control flow is reported instead of
+/// silently leaving the hand-written model stale.
+fn gen_timeout(root: &str) -> R<String> {
+    let mut o = String::new();
+    writeln!(o, "(* GENERATED by rs2v from tonic/src/transport/service/grpc_timeout.rs and tonic/src/request.rs - do not edit *)").unwrap();
+    writeln!(o, "From Coq Require Import List NArith.\nImport ListNotations.\nOpen Scope N_scope.\n").unwrap();
+
+    // ---------------- parser
+    let f = parse(root, "tonic/src/transport/service/grpc_timeout.rs")?;
+    let mut env: BTreeMap<String, u128> = BTreeMap::new();
+    for c in ["SECONDS_IN_MINUTE", "SECONDS_IN_HOUR"] {
+        let v = eval(&find_const(&f, c)?, &env)?;
+        env.insert(c.to_string(), v);
+    }
+    let b = find_fn(&f, "try_parse_grpc_timeout")?;
+    let st: Vec<String> = b.stmts.iter().map(ts).collect();
+    let mut i = 0;
+    let mut expect = |want: &str, what: &str| -> R<()> {
+        if st.get(i).map(|s| s.as_str()) != Some(want) {
+            return Err(format!("try_parse_grpc_timeout: statement {} ({}) is `{}`, expected `{}`", i, what, st.get(i).cloned().unwrap_or_default(), want));
+        }
+        i += 1;
+        Ok(())
+    };
+    expect("let Some(val)=headers.get(GRPC_TIMEOUT_HEADER)else{return Ok(None);};", "absent header")?;
+    expect("let(timeout_value,timeout_unit)=val.to_str().map_err(|_|val).and_then(|s|if s.is_empty(){Err(val)}else{Ok(s)})?.split_at(val.len()-1);", "to_str, non-empty, split off the last byte")?;
+    drop(expect);
+    // digit cap
+    let cap_prefix = "if timeout_value.len()>";
+    let cap_suffix = "{return Err(val);}";
+    let s = st.get(i).ok_or("try_parse_grpc_timeout: missing digit cap")?;
+    if !(s.starts_with(cap_prefix) && s.ends_with(cap_suffix)) {
+        return Err(format!("try_parse_grpc_timeout: digit cap has shape `{}`", s));
+    }
+    let cap: u128 = s[cap_prefix.len()..s.len() - cap_suffix.len()]
+        .parse()
+        .map_err(|_| format!("try_parse_grpc_timeout: digit cap `{}`", s))?;
+    i += 1;
+    // digits-only check (present since the fix of F-C09a)
+    let digits_only = st.get(i).map(|s| s.as_str())
+        == Some("if!timeout_value.bytes().all(|b|b.is_ascii_digit()){return Err(val);}");
+    if digits_only {
+        i += 1;
+    }
+    if st.get(i).map(|s| s.as_str()) != Some("let timeout_value:u64=timeout_value.parse().map_err(|_|val)?;") {
+        return Err(format!("try_parse_grpc_timeout: statement {} is `{}`, expected the u64 parse", i, st.get(i).cloned().unwrap_or_default()));
+    }
+    i += 1;
+    if !st.get(i).map(|s| s.starts_with("let duration=match timeout_unit{")).unwrap_or(false) {
+        return Err(format!("try_parse_grpc_timeout: statement {} is not `let duration = match timeout_unit`", i));
+    }
+    i += 1;
+    if st.get(i).map(|s| s.as_str()) != Some("Ok(Some(duration))") || st.len() != i + 1 {
+        return Err("try_parse_grpc_timeout: unexpected tail".into());
+    }
+    let m = the_match(&b, "timeout_unit")?;
+    let mut units: Vec<(u8, u128, u128)> = vec![];
+    let mut has_default = false;
+    for (alts, g, body) in arms(&m) {
+        if g.is_some() {
+            return Err("try_parse_grpc_timeout: guard in unit match".into());
+        }
+        if alts == ["_"] {
+            if ts(&body) != "return Err(val)" {
+                return Err(format!("try_parse_grpc_timeout: default arm `{}`", ts(&body)));
+            }
+            has_default = true;
+            continue;
+        }
+        let call = match &body {
+            syn::Expr::Call(c) => c.clone(),
+            _ => return Err(format!("try_parse_grpc_timeout: arm body `{}`", ts(&body))),
+        };
+        let per_ns: u128 = match ts(&call.func).as_str() {
+            "Duration::from_secs" => 1_000_000_000,
+            "Duration::from_millis" => 1_000_000,
+            "Duration::from_micros" => 1_000,
+            "Duration::from_nanos" => 1,
+            other => return Err(format!("try_parse_grpc_timeout: constructor `{}`", other)),
+        };
+        if call.args.len() != 1 {
+            return Err("try_parse_grpc_timeout: constructor arity".into());
+        }
+        let factor = match &call.args[0] {
+            syn::Expr::Path(p) if ts(p) == "timeout_value" => 1,
+            syn::Expr::Binary(bin) if matches!(bin.op, syn::BinOp::Mul(_)) && ts(&bin.left) == "timeout_value" => eval(&bin.right, &env)?,
+            a => return Err(format!("try_parse_grpc_timeout: argument `{}`", ts(a))),
+        };
+        for a in alts {
+            let lit: syn::LitStr = syn::parse_str(&a).map_err(|_| format!("try_parse_grpc_timeout: unit pattern `{}`", a))?;
+            let v = lit.value();
+            if v.len() != 1 {
+                return Err(format!("try_parse_grpc_timeout: unit pattern `{}` is not one byte", a));
+            }
+            units.push((v.as_bytes()[0], factor, per_ns));
+        }
+    }
+    if !has_default {
+        return Err("try_parse_grpc_timeout: no default arm".into());
+    }
+    writeln!(o, "(* try_parse_grpc_timeout: TimeoutValue has at most this many bytes *)\nDefinition parse_max_digits : N := {}.", cap).unwrap();
+    writeln!(o, "(* the value must consist of ASCII digits only (checked before u64::from_str) *)\nDefinition parse_digits_only : bool := {}.", digits_only).unwrap();
+    writeln!(o, "(* unit byte -> (u64 factor applied to the value, nanoseconds of the Duration constructor's unit) *)\nDefinition parse_unit_table : list (N * (N * N)) :=\n  [{}].",
+        units.iter().map(|(u, f, p)| format!("({}, ({}, {}))", u, f, p)).collect::<Vec<_>>().join("; ")).unwrap();
+
+    // ---------------- formatter
+    let f = parse(root, "tonic/src/request.rs")?;
+    let b = find_fn(&f, "duration_to_grpc_timeout")?;
+    if b.stmts.len() != 2 {
+        return Err("duration_to_grpc_timeout: expected the helper fn and one expression".into());
+    }
+    let tf = find_fn(&f, "try_format")?;
+    let tfs: Vec<String> = tf.stmts.iter().map(ts).collect();
+    let ms_prefix = "let max_size:u128=";
+    let max_size = match tf.stmts.first() {
+        Some(syn::Stmt::Local(l)) if tfs[0].starts_with(ms_prefix) => {
+            eval(&l.init.as_ref().ok_or("try_format: max_size without value")?.expr, &BTreeMap::new())?
+        }
+        _ => return Err("try_format: first statement is not `let max_size: u128 = ..`".into()),
+    };
+    if tfs.len() != 3
+        || tfs[1] != "let value=convert(duration).into();"
+        || tfs[2] != "if value>max_size{None}else{Some(format!(\"{}{}\",value,unit))}"
+    {
+        return Err(format!("try_format: unexpected body `{}`", tfs.join(" ")));
+    }
+    // divisor chain of a convert closure: d.as_*() followed by integer divisions
+    fn chain(e: &syn::Expr, env: &BTreeMap<String, Vec<u128>>) -> R<Vec<u128>> {
+        match e {
+            syn::Expr::MethodCall(mc) if ts(&mc.receiver) == "d" && mc.args.is_empty() => {
+                match mc.method.to_string().as_str() {
+                    "as_nanos" => Ok(vec![1]),
+                    "as_micros" => Ok(vec![1_000]),
+                    "as_millis" => Ok(vec![1_000_000]),
+                    "as_secs" => Ok(vec![1_000_000_000]),
+                    m => Err(format!("duration_to_grpc_timeout: conversion `{}`", m)),
+                }
+            }
+            syn::Expr::Binary(b) if matches!(b.op, syn::BinOp::Div(_)) => {
+                let mut c = chain(&b.left, env)?;
+                c.push(eval(&b.right, &BTreeMap::new())?);
+                Ok(c)
+            }
+            syn::Expr::Paren(p) => chain(&p.expr, env),
+            syn::Expr::Path(p) => env.get(&ts(p)).cloned().ok_or(format!("duration_to_grpc_timeout: unknown `{}`", ts(p))),
+            syn::Expr::Block(bl) => {
+                let mut env = env.clone();
+                let n = bl.block.stmts.len();
+                for (k, s) in bl.block.stmts.iter().enumerate() {
+                    match s {
+                        syn::Stmt::Local(l) if k + 1 < n => {
+                            let name = ts(&l.pat);
+                            let v = chain(&l.init.as_ref().ok_or("let without value")?.expr, &env)?;
+                            env.insert(name, v);
+                        }
+                        syn::Stmt::Expr(e, None) if k + 1 == n => return chain(e, &env),
+                        _ => return Err(format!("duration_to_grpc_timeout: statement `{}`", ts(s))),
+                    }
+                }
+                Err("duration_to_grpc_timeout: empty block".into())
+            }
+            _ => Err(format!("duration_to_grpc_timeout: conversion `{}`", ts(e))),
+        }
+    }
+    fn try_format_call(e: &syn::Expr) -> R<(u8, Vec<u128>)> {
+        // `|| { try_format(..) }`: a block holding just the call
+        if let syn::Expr::Block(bl) = e {
+            if let [syn::Stmt::Expr(inner, None)] = bl.block.stmts.as_slice() {
+                return try_format_call(inner);
+            }
+        }
+        let c = match e {
+            syn::Expr::Call(c) if ts(&c.func) == "try_format" && c.args.len() == 3 => c,
+            _ => return Err(format!("duration_to_grpc_timeout: expected try_format(..), found `{}`", ts(e))),
+        };
+        if ts(&c.args[0]) != "duration" {
+            return Err("duration_to_grpc_timeout: first argument is not `duration`".into());
+        }
+        let unit: syn::LitChar = syn::parse_str(&ts(&c.args[1])).map_err(|_| format!("unit `{}`", ts(&c.args[1])))?;
+        let unit = unit.value();
+        if !unit.is_ascii() {
+            return Err("duration_to_grpc_timeout: non-ASCII unit".into());
+        }
+        let cl = match &c.args[2] {
+            syn::Expr::Closure(cl) if cl.inputs.len() == 1 && ts(&cl.inputs[0]) == "d" => cl,
+            a => return Err(format!("duration_to_grpc_timeout: convert `{}`", ts(a))),
+        };
+        Ok((unit as u8, chain(&cl.body, &BTreeMap::new())?))
+    }
+    let mut cur: &syn::Expr = match &b.stmts[1] {
+        syn::Stmt::Expr(e, None) => e,
+        _ => return Err("duration_to_grpc_timeout: no tail expression".into()),
+    };
+    // outermost: .expect(..)
+    match cur {
+        syn::Expr::MethodCall(mc) if mc.method == "expect" => cur = &mc.receiver,
+        _ => return Err("duration_to_grpc_timeout: the cascade does not end in .expect(..)".into()),
+    }
+    let mut rev: Vec<(u8, Vec<u128>)> = vec![];
+    loop {
+        match cur {
+            syn::Expr::MethodCall(mc) if mc.method == "or_else" && mc.args.len() == 1 => {
+                let cl = match &mc.args[0] {
+                    syn::Expr::Closure(cl) if cl.inputs.is_empty() => cl,
+                    a => return Err(format!("duration_to_grpc_timeout: or_else argument `{}`", ts(a))),
+                };
+                rev.push(try_format_call(&cl.body)?);
+                cur = &mc.receiver;
+            }
+            syn::Expr::Call(_) => {
+                rev.push(try_format_call(cur)?);
+                break;
+            }
+            _ => return Err(format!("duration_to_grpc_timeout: cascade element `{}`", ts(cur))),
+        }
+    }
+    rev.reverse();
+    writeln!(o, "\n(* duration_to_grpc_timeout: largest value written before a coarser unit is used *)\nDefinition fmt_max_size : N := {}.", max_size).unwrap();
+    writeln!(o, "(* cascade in order: unit byte, successive truncating divisors applied to the nanoseconds *)\nDefinition fmt_cascade : list (N * list N) :=\n  [{}].",
+        rev.iter().map(|(u, c)| format!("({}, [{}])", u, c.iter().map(|x| x.to_string()).collect::<Vec<_>>().join("; "))).collect::<Vec<_>>().join("; ")).unwrap();
+    Ok(o)
+}
+
+// ---- C20: rich error details -----------------------------------------------------------------
+/// `Gen/RichErrorTables.v`: the ten `TYPE_URL` constants of
+/// tonic-types/src/richer_error/std_messages/*.rs, the prost field tags and kinds of the
+/// google.rpc messages (tonic-types/src/generated/google_rpc.rs) and of the two well-known types
+/// they embed (prost-types `Any` and `Duration`, version taken from /repo/Cargo.lock), the push
+/// order of `with_error_details_and_metadata` and the (type URL -> field / variant) arms of
+/// `check_error_details[_vec]` (tonic-types/src/richer_error/mod.rs).
+fn gen_richerror(root: &str) -> R<String> {
+    fn coq_str(s: &str) -> String {
+        format!("\"{}\"%string", s)
+    }
+    /// fields of a `#[derive(::prost::Message)]` struct: (name, tag, kind as a Gallina term)
+    fn prost_fields(s: &syn::ItemStruct) -> R<Vec<(String, u32, String)>> {
+        let fields = match &s.fields {
+            syn::Fields::Named(n) => &n.named,
+            _ => return Err(format!("struct {}: not a struct with named fields", s.ident)),
+        };
+        let mut out = vec![];
+        for f in fields {
+            let name = f.ident.as_ref().unwrap().to_string().trim_start_matches("r#").to_string();
+            let attrs: Vec<String> = f.attrs.iter().map(ts).filter(|a| a.starts_with("#[prost(")).collect();
+            if attrs.len() != 1 {
+                return Err(format!("{}.{}: {} prost attributes", s.ident, name, attrs.len()));
+            }
+            let inner = &attrs[0]["#[prost(".len()..attrs[0].len() - 2];
+            // split on commas outside string literals
+            let mut parts: Vec<String> = vec![];
+            let (mut cur, mut inq) = (String::new(), false);
+            for ch in inner.chars() {
+                match ch {
+                    '"' => { inq = !inq; cur.push(ch) }
+                    ',' if !inq => { parts.push(std::mem::take(&mut cur)); }
+                    _ => cur.push(ch),
+                }
+            }
+            parts.push(cur);
+            let mut tag = None;
+            let mut rest = vec![];
+            for p in parts {
+                if let Some(t) = p.strip_prefix("tag=") {
+                    tag = Some(t.trim_matches('"').parse::<u32>().map_err(|_| format!("{}.{}: tag {}", s.ident, name, t))?);
+                } else {
+                    rest.push(p);
+                }
+            }
+            let tag = tag.ok_or(format!("{}.{}: no tag", s.ident, name))?;
+            // element type of Option<..> / Vec<..>, without a leading `::`
+            let elem = || -> R<String> {
+                let t = ts(&f.ty);
+                let i = t.find('<').ok_or(format!("{}.{}: type {}", s.ident, name, t))?;
+                Ok(t[i + 1..t.len() - 1].trim_start_matches("::").to_string())
+            };
+            let rest: Vec<&str> = rest.iter().map(|x| x.as_str()).collect();
+            let kind = match rest.as_slice() {
+                ["int32"] => "P_int32".to_string(),
+                ["int64"] => "P_int64".to_string(),
+                ["string"] => "P_string".to_string(),
+                ["bytes=\"vec\""] | ["bytes"] => "P_bytes".to_string(),
+                ["string", "repeated"] => "P_string_rep".to_string(),
+                ["message", "optional"] => format!("(P_msg_opt {})", coq_str(&elem()?)),
+                ["message", "repeated"] => format!("(P_msg_rep {})", coq_str(&elem()?)),
+                ["map=\"string, string\""] => "P_map_string_string".to_string(),
+                other => return Err(format!("{}.{}: unsupported prost field kind {:?}", s.ident, name, other)),
+            };
+            out.push((name, tag, kind));
+        }
+        Ok(out)
+    }
+    fn is_prost_message(s: &syn::ItemStruct) -> bool {
+        s.attrs.iter().any(|a| { let t = ts(a); t.starts_with("#[derive(") && t.contains("::prost::Message") })
+    }
+    fn emit_struct(o: &mut String, coq_name: &str, s: &syn::ItemStruct) -> R<()> {
+        let fs = prost_fields(s)?;
+        writeln!(o, "Definition fields_{} : list (string * N * pkind) :=\n  [{}].", coq_name,
+            fs.iter().map(|(n, t, k)| format!("({}, {}, {})", coq_str(n), t, k)).collect::<Vec<_>>().join("; ")).unwrap();
+        for (n, t, _) in &fs {
+            writeln!(o, "Definition tag_{}_{} : N := {}.", coq_name, n, t).unwrap();
+        }
+        Ok(())
+    }
+
+    let mut o = String::new();
+    writeln!(o, "(* GENERATED by rs2v from tonic-types/src/richer_error/{{mod.rs,std_messages/*.rs}}, tonic-types/src/generated/google_rpc.rs and prost-types/src/protobuf.rs - do not edit *)").unwrap();
+    writeln!(o, "From Coq Require Import List NArith String.\nImport ListNotations.\nOpen Scope N_scope.\n").unwrap();
+    writeln!(o, "(* kinds of prost fields that occur in the google.rpc error model *)\nInductive pkind : Type :=\n| P_int32 | P_int64 | P_string | P_bytes | P_string_rep\n| P_msg_opt (ty : string) | P_msg_rep (ty : string) | P_map_string_string.\n").unwrap();
+
+    // ---------------- the ten TYPE_URLs, in the order of `enum ErrorDetail`
+    let fv = parse(root, "tonic-types/src/richer_error/error_details/vec.rs")?;
+    let mut variants: Vec<String> = vec![];
+    for it in &fv.items {
+        if let syn::Item::Enum(e) = it {
+            if e.ident == "ErrorDetail" {
+                for v in &e.variants {
+                    let inner = match &v.fields {
+                        syn::Fields::Unnamed(u) if u.unnamed.len() == 1 => ts(&u.unnamed[0].ty),
+                        _ => return Err(format!("ErrorDetail::{}: not a one-field tuple variant", v.ident)),
+                    };
+                    if inner != v.ident.to_string() {
+                        return Err(format!("ErrorDetail::{} wraps {}", v.ident, inner));
+                    }
+                    variants.push(v.ident.to_string());
+                }
+            }
+        }
+    }
+    if variants.is_empty() {
+        return Err("enum ErrorDetail not found".into());
+    }
+    const FILES: &[(&str, &str)] = &[
+        ("RetryInfo", "retry_info.rs"), ("DebugInfo", "debug_info.rs"), ("QuotaFailure", "quota_failure.rs"),
+        ("ErrorInfo", "error_info.rs"), ("PreconditionFailure", "prec_failure.rs"), ("BadRequest", "bad_request.rs"),
+        ("RequestInfo", "request_info.rs"), ("ResourceInfo", "resource_info.rs"), ("Help", "help.rs"),
+        ("LocalizedMessage", "loc_message.rs"),
+    ];
+    writeln!(o, "(* enum ErrorDetail, variant order *)\nDefinition error_detail_variants : list string :=\n  [{}].\n",
+        variants.iter().map(|v| coq_str(v)).collect::<Vec<_>>().join("; ")).unwrap();
+    for v in &variants {
+        let file = FILES.iter().find(|(n, _)| n == v).ok_or(format!("no std_messages file known for ErrorDetail::{}", v))?.1;
+        let f = parse(root, &format!("tonic-types/src/richer_error/std_messages/{}", file))?;
+        let e = find_const(&f, "TYPE_URL")?;
+        let url = match &e {
+            syn::Expr::Lit(l) => match &l.lit { syn::Lit::Str(s) => s.value(), _ => return Err(format!("{}: TYPE_URL is not a string literal", file)) },
+            _ => return Err(format!("{}: TYPE_URL is not a literal", file)),
+        };
+        // the constant must belong to `impl <Variant>`
+        let owner_ok = f.items.iter().any(|it| matches!(it, syn::Item::Impl(im) if im.trait_.is_none() && ts(&im.self_ty) == *v
+            && im.items.iter().any(|x| matches!(x, syn::ImplItem::Const(c) if c.ident == "TYPE_URL"))));
+        if !owner_ok {
+            return Err(format!("{}: TYPE_URL is not an associated constant of {}", file, v));
+        }
+        writeln!(o, "Definition TYPE_URL_{} : list N := {}.", v, coq_bytes(url.as_bytes())).unwrap();
+    }
+
+    // ---------------- google.rpc messages
+    let fg = parse(root, "tonic-types/src/generated/google_rpc.rs")?;
+    writeln!(o, "\n(* prost messages of google_rpc.rs: (field, tag, kind) in declaration order *)").unwrap();
+    let mut n_msgs = 0;
+    for it in &fg.items {
+        match it {
+            syn::Item::Struct(s) if is_prost_message(s) => { emit_struct(&mut o, &s.ident.to_string(), s)?; n_msgs += 1; }
+            syn::Item::Mod(m) => {
+                let (_, items) = m.content.as_ref().ok_or(format!("mod {}: no inline content", m.ident))?;
+                for it in items {
+                    match it {
+                        syn::Item::Struct(s) if is_prost_message(s) => { emit_struct(&mut o, &format!("{}_{}", m.ident, s.ident), s)?; n_msgs += 1; }
+                        other => return Err(format!("google_rpc.rs: unexpected item in mod {}: {}", m.ident, ts(other).chars().take(60).collect::<String>())),
+                    }
+                }
+            }
+            syn::Item::Struct(s) => return Err(format!("google_rpc.rs: struct {} is not a prost message", s.ident)),
+            other => return Err(format!("google_rpc.rs: unexpected item {}", ts(other).chars().take(60).collect::<String>())),
+        }
+    }
+    writeln!(o, "Definition google_rpc_message_count : N := {}.", n_msgs).unwrap();
+
+    // ---------------- prost-types Any and Duration (version pinned by /repo/Cargo.lock)
+    let lock = std::fs::read_to_string(format!("{}/Cargo.lock", root)).map_err(|e| format!("Cargo.lock: {}", e))?;
+    let i = lock.find("name = \"prost-types\"").ok_or("Cargo.lock: no prost-types")?;
+    let ver = str_lit(&lock[i + "name = \"prost-types\"".len()..])?;
+    let home = std::env::var("CARGO_HOME").unwrap_or_else(|_| format!("{}/.cargo", std::env::var("HOME").unwrap_or_default()));
+    let mut src = None;
+    if let Ok(rd) = std::fs::read_dir(format!("{}/registry/src", home)) {
+        for d in rd.flatten() {
+            let p = d.path().join(format!("prost-types-{}/src/protobuf.rs", ver));
+            if p.exists() { src = Some(p); }
+        }
+    }
+    let src = src.ok_or(format!("prost-types-{} sources not found under {}/registry/src", ver, home))?;
+    let text = std::fs::read_to_string(&src).map_err(|e| format!("{}: {}", src.display(), e))?;
+    let fp = syn::parse_file(&text).map_err(|e| format!("{}: {}", src.display(), e))?;
+    writeln!(o, "\n(* prost-types {}: the well-known types embedded by the messages above *)", ver).unwrap();
+    for want in ["Any", "Duration"] {
+        let s = fp.items.iter().find_map(|it| match it { syn::Item::Struct(s) if s.ident == want => Some(s), _ => None })
+            .ok_or(format!("prost-types: struct {} not found", want))?;
+        if !is_prost_message(s) { return Err(format!("prost-types: {} is not a prost message", want)); }
+        emit_struct(&mut o, want, s)?;
+    }
+
+    // ---------------- push order and decode arms of richer_error/mod.rs
+    let fm = parse(root, "tonic-types/src/richer_error/mod.rs")?;
+    let b = find_fn(&fm, "with_error_details_and_metadata")?;
+    let mut pushes = vec![];
+    for st in &b.stmts {
+        let s = ts(st);
+        if let Some(rest) = s.strip_prefix("if let Some(") {
+            // if let Some(x)=details.FIELD{conv_details.push(x.into_any());}
+            let var = &rest[..rest.find(')').ok_or("with_error_details: if let")?];
+            let want_prefix = format!("if let Some({})=details.", var);
+            let field = s.strip_prefix(&want_prefix).and_then(|r| r.find('{').map(|j| (r[..j].to_string(), r[j..].to_string())));
+            match field {
+                Some((f, body)) if body == format!("{{conv_details.push({}.into_any());}}", var) => pushes.push(f),
+                _ => return Err(format!("with_error_details_and_metadata: unrecognised statement `{}`", s)),
+            }
+        } else if s.contains("conv_details.push") {
+            return Err(format!("with_error_details_and_metadata: push outside `if let Some`: `{}`", s));
+        }
+    }
+    writeln!(o, "\n(* with_error_details_and_metadata: fields of ErrorDetails in the order they are pushed *)\nDefinition push_order : list string :=\n  [{}].",
+        pushes.iter().map(|p| coq_str(p)).collect::<Vec<_>>().join("; ")).unwrap();
+
+    // with_error_details_vec_and_metadata: every variant is pushed as it comes
+    let b = find_fn(&fm, "with_error_details_vec_and_metadata")?;
+    let m = the_match(&b, "error_detail")?;
+    let mut vec_arms = vec![];
+    for (alts, g, body) in arms(&m) {
+        if g.is_some() || alts.len() != 1 { return Err("with_error_details_vec_and_metadata: guard / or-pattern".into()); }
+        let a = &alts[0];
+        let v = a.strip_prefix("ErrorDetail::").and_then(|r| r.find('(').map(|j| (r[..j].to_string(), r[j + 1..r.len() - 1].to_string())));
+        match v {
+            Some((variant, var)) if ts(&body) == format!("{{conv_details.push({}.into_any());}}", var) => vec_arms.push(variant),
+            _ => return Err(format!("with_error_details_vec_and_metadata: unrecognised arm `{}=>{}`", a, ts(&body))),
+        }
+    }
+    writeln!(o, "(* with_error_details_vec_and_metadata: variants whose arm is `conv_details.push(x.into_any())` *)\nDefinition vec_push_variants : list string :=\n  [{}].",
+        vec_arms.iter().map(|p| coq_str(p)).collect::<Vec<_>>().join("; ")).unwrap();
+
+    // impl RpcStatusExt for pb::Status
+    let imp = fm.items.iter().find_map(|it| match it {
+        syn::Item::Impl(im) if im.trait_.as_ref().map(|t| ts(&t.1)) == Some("RpcStatusExt".to_string()) && ts(&im.self_ty) == "pb::Status" => Some(im),
+        _ => None,
+    }).ok_or("impl RpcStatusExt for pb::Status not found")?;
+    let impl_fn = |name: &str| -> R<syn::Block> {
+        imp.items.iter().find_map(|x| match x { syn::ImplItem::Fn(f) if f.sig.ident == name => Some(f.block.clone()), _ => None })
+            .ok_or(format!("RpcStatusExt::{} not found", name))
+    };
+    // check_error_details: URL => details.FIELD = Some(T::from_any_ref(any)?), `_ => {}`
+    let m = the_match(&impl_fn("check_error_details")?, "any.type_url.as_str()")?;
+    let mut set_arms = vec![];
+    let mut dflt = false;
+    for (alts, g, body) in arms(&m) {
+        if g.is_some() || alts.len() != 1 { return Err("check_error_details: guard / or-pattern".into()); }
+        if alts[0] == "_" { if ts(&body) != "{}" { return Err("check_error_details: default arm is not empty".into()); } dflt = true; continue; }
+        let ty = alts[0].strip_suffix("::TYPE_URL").ok_or(format!("check_error_details: pattern {}", alts[0]))?;
+        let bs = ts(&body);
+        let field = bs.strip_prefix("{details.").and_then(|r| r.find('=').map(|j| r[..j].to_string()))
+            .ok_or(format!("check_error_details: arm body {}", bs))?;
+        if bs != format!("{{details.{}=Some({}::from_any_ref(any)?);}}", field, ty) {
+            return Err(format!("check_error_details: arm body {}", bs));
+        }
+        set_arms.push((ty.to_string(), field));
+    }
+    if !dflt { return Err("check_error_details: no `_ => {}` arm".into()); }
+    writeln!(o, "(* RpcStatusExt::check_error_details: (type whose TYPE_URL is matched, field of ErrorDetails that is overwritten); other URLs are skipped *)\nDefinition check_set_arms : list (string * string) :=\n  [{}].",
+        set_arms.iter().map(|(a, b)| format!("({}, {})", coq_str(a), coq_str(b))).collect::<Vec<_>>().join("; ")).unwrap();
+    // check_error_details_vec: URL => details.push(T::from_any_ref(any)?.into())
+    let m = the_match(&impl_fn("check_error_details_vec")?, "any.type_url.as_str()")?;
+    let mut vec_dec = vec![];
+    let mut dflt = false;
+    for (alts, g, body) in arms(&m) {
+        if g.is_some() || alts.len() != 1 { return Err("check_error_details_vec: guard / or-pattern".into()); }
+        if alts[0] == "_" { if ts(&body) != "{}" { return Err("check_error_details_vec: default arm is not empty".into()); } dflt = true; continue; }
+        let ty = alts[0].strip_suffix("::TYPE_URL").ok_or(format!("check_error_details_vec: pattern {}", alts[0]))?;
+        if ts(&body) != format!("{{details.push({}::from_any_ref(any)?.into());}}", ty) {
+            return Err(format!("check_error_details_vec: arm body {}", ts(&body)));
+        }
+        vec_dec.push(ty.to_string());
+    }
+    if !dflt { return Err("check_error_details_vec: no `_ => {}` arm".into()); }
+    writeln!(o, "(* RpcStatusExt::check_error_details_vec: types whose TYPE_URL arm is `details.push(T::from_any_ref(any)?.into())` *)\nDefinition check_vec_arms : list string :=\n  [{}].",
+        vec_dec.iter().map(|p| coq_str(p)).collect::<Vec<_>>().join("; ")).unwrap();
+    // get_details_X: first entry with the URL that decodes
+    let mut getters = vec![];
+    for x in &imp.items {
+        if let syn::ImplItem::Fn(f) = x {
+            let name = f.sig.ident.to_string();
+            if let Some(suffix) = name.strip_prefix("get_details_") {
+                let body = ts(&f.block);
+                let ty = body.strip_prefix("{for any in self.details.iter(){if any.type_url.as_str()==")
+                    .and_then(|r| r.find("::TYPE_URL").map(|j| r[..j].to_string()))
+                    .ok_or(format!("{}: unrecognised body", name))?;
+                if body != format!("{{for any in self.details.iter(){{if any.type_url.as_str()=={}::TYPE_URL{{if let Ok(detail)={}::from_any_ref(any){{return Some(detail);}}}}}}None}}", ty, ty) {
+                    return Err(format!("{}: unrecognised body {}", name, body));
+                }
+                getters.push((suffix.to_string(), ty));
+            }
+        }
+    }
+    writeln!(o, "(* RpcStatusExt::get_details_<suffix>: first entry whose URL is <type>::TYPE_URL and that decodes *)\nDefinition getter_types : list (string * string) :=\n  [{}].",
+        getters.iter().map(|(a, b)| format!("({}, {})", coq_str(a), coq_str(b))).collect::<Vec<_>>().join("; ")).unwrap();
+    // RetryInfo::MAX_RETRY_DELAY and the fallback of From<RetryInfo> for pb::RetryInfo
+    let fr = parse(root, "tonic-types/src/richer_error/std_messages/retry_info.rs")?;
+    let e = ts(&find_const(&fr, "MAX_RETRY_DELAY")?);
+    let args = e.strip_prefix("time::Duration::new(").and_then(|r| r.strip_suffix(')')).ok_or(format!("MAX_RETRY_DELAY: {}", e))?;
+    let nums: Vec<u128> = args.split(',').map(|x| x.replace('_', "").parse::<u128>().map_err(|_| format!("MAX_RETRY_DELAY: {}", e))).collect::<R<_>>()?;
+    if nums.len() != 2 { return Err(format!("MAX_RETRY_DELAY: {}", e)); }
+    writeln!(o, "\n(* RetryInfo::MAX_RETRY_DELAY = Duration::new(secs, nanos) *)\nDefinition max_retry_delay_secs : N := {}.\nDefinition max_retry_delay_nanos : N := {}.", nums[0], nums[1]).unwrap();
+    let whole = ts(&fr);
+    let key = "Err(_)=>prost_types::Duration{seconds:";
+    let i = whole.find(key).ok_or("From<RetryInfo> for pb::RetryInfo: no fallback duration")?;
+    let rest = &whole[i + key.len()..];
+    let j = rest.find(",nanos:").ok_or("fallback duration: nanos")?;
+    let k = rest[j..].find('}').ok_or("fallback duration: end")? + j;
+    let fs: u128 = rest[..j].replace('_', "").parse().map_err(|_| "fallback duration seconds".to_string())?;
+    let fnn: u128 = rest[j + ",nanos:".len()..k].trim_end_matches(',').replace('_', "").parse().map_err(|_| "fallback duration nanos".to_string())?;
+    writeln!(o, "(* From<RetryInfo> for pb::RetryInfo: value used when prost_types::Duration::try_from fails *)\nDefinition fallback_delay_secs : N := {}.\nDefinition fallback_delay_nanos : N := {}.", fs, fnn).unwrap();
+    Ok(o)
+}
+
 fn main() {
     let a: Vec<String> = std::env::args().collect();
     if a.len() != 3 {
@@ -451,7 +1137,7 @@ fn main() {
     }
     let (root, out) = (&a[1], &a[2]);
     std::fs::create_dir_all(out).unwrap();
-    let gens: Vec<(&str, fn(&str) -> R<String>)> = vec![("StatusTables.v", gen_status)];
+    let gens: Vec<(&str, fn(&str) -> R<String>)> = vec![("StatusTables.v", gen_status), ("CompressionTables.v", gen_compression), ("TimeoutTables.v", gen_timeout), ("RichErrorTables.v", gen_richerror)];
     let mut failed = false;
     for (name, g) in gens {
         match g(root) {
